@@ -26,3 +26,15 @@ func VerifLookupAffineAt(tbl unsafe.Pointer, idx uint64) {
 func VerifTableLayout() (projTable, projEntry, affineTable, affineEntry uintptr) {
 	return unsafe.Sizeof(projectivePointMultTable{}), unsafe.Sizeof(Point{}), unsafe.Sizeof(affinePointMultTable{}), unsafe.Sizeof(affinePoint{})
 }
+
+// VerifLookupProjectiveRaw runs lookupProjectivePoint with both the table and
+// the destination in caller-provided memory (any address the Go types allow,
+// e.g. 8 mod 16).
+func VerifLookupProjectiveRaw(tbl, out unsafe.Pointer, idx uint64) {
+	lookupProjectivePoint((*projectivePointMultTable)(tbl), (*Point)(out), idx)
+}
+
+// VerifLookupAffineRaw is the affine counterpart of VerifLookupProjectiveRaw.
+func VerifLookupAffineRaw(tbl, out unsafe.Pointer, idx uint64) {
+	lookupAffinePoint((*affinePointMultTable)(tbl), (*affinePoint)(out), idx)
+}
